@@ -68,10 +68,25 @@ impl Generator {
         }
 
         let mut result = value;
+        #[cfg(feature = "verif-hooks")]
+        crate::verif::draw(crate::verif::ValueKind::Int, false);
+        #[cfg(feature = "verif-hooks")]
+        let mut verif_idx = 0usize;
         for mutator in &self.mutators {
             if let Some(mutated) = mutator.mutate_int(result, source, self.mutation_rate) {
+                #[cfg(feature = "verif-hooks")]
+                crate::verif::mutated(
+                    crate::verif::ValueKind::Int,
+                    verif_idx,
+                    mutator.name(),
+                    mutated != result,
+                );
                 result = mutated;
                 break; // Apply only one mutation
+            }
+            #[cfg(feature = "verif-hooks")]
+            {
+                verif_idx += 1;
             }
         }
         result
@@ -95,10 +110,25 @@ impl Generator {
         }
 
         let mut result = value;
+        #[cfg(feature = "verif-hooks")]
+        crate::verif::draw(crate::verif::ValueKind::Long, false);
+        #[cfg(feature = "verif-hooks")]
+        let mut verif_idx = 0usize;
         for mutator in &self.mutators {
             if let Some(mutated) = mutator.mutate_long(result, source, self.mutation_rate) {
+                #[cfg(feature = "verif-hooks")]
+                crate::verif::mutated(
+                    crate::verif::ValueKind::Long,
+                    verif_idx,
+                    mutator.name(),
+                    mutated != result,
+                );
                 result = mutated;
                 break;
+            }
+            #[cfg(feature = "verif-hooks")]
+            {
+                verif_idx += 1;
             }
         }
         result
@@ -121,10 +151,25 @@ impl Generator {
         }
 
         let mut result = value;
+        #[cfg(feature = "verif-hooks")]
+        crate::verif::draw(crate::verif::ValueKind::Float, false);
+        #[cfg(feature = "verif-hooks")]
+        let mut verif_idx = 0usize;
         for mutator in &self.mutators {
             if let Some(mutated) = mutator.mutate_float(result, source, self.mutation_rate) {
+                #[cfg(feature = "verif-hooks")]
+                crate::verif::mutated(
+                    crate::verif::ValueKind::Float,
+                    verif_idx,
+                    mutator.name(),
+                    mutated.to_bits() != result.to_bits(),
+                );
                 result = mutated;
                 break;
+            }
+            #[cfg(feature = "verif-hooks")]
+            {
+                verif_idx += 1;
             }
         }
         result
@@ -148,11 +193,26 @@ impl Generator {
         }
 
         let mut result = value;
+        #[cfg(feature = "verif-hooks")]
+        crate::verif::draw(crate::verif::ValueKind::String, result.is_empty());
+        #[cfg(feature = "verif-hooks")]
+        let mut verif_idx = 0usize;
         for mutator in &self.mutators {
             if let Some(mutated) = mutator.mutate_string(result.clone(), source, self.mutation_rate)
             {
+                #[cfg(feature = "verif-hooks")]
+                crate::verif::mutated(
+                    crate::verif::ValueKind::String,
+                    verif_idx,
+                    mutator.name(),
+                    mutated != result,
+                );
                 result = mutated;
                 break;
+            }
+            #[cfg(feature = "verif-hooks")]
+            {
+                verif_idx += 1;
             }
         }
         result
@@ -176,11 +236,26 @@ impl Generator {
         }
 
         let mut result = value;
+        #[cfg(feature = "verif-hooks")]
+        crate::verif::draw(crate::verif::ValueKind::Bytes, result.is_empty());
+        #[cfg(feature = "verif-hooks")]
+        let mut verif_idx = 0usize;
         for mutator in &self.mutators {
             if let Some(mutated) = mutator.mutate_bytes(result.clone(), source, self.mutation_rate)
             {
+                #[cfg(feature = "verif-hooks")]
+                crate::verif::mutated(
+                    crate::verif::ValueKind::Bytes,
+                    verif_idx,
+                    mutator.name(),
+                    mutated != result,
+                );
                 result = mutated;
                 break;
+            }
+            #[cfg(feature = "verif-hooks")]
+            {
+                verif_idx += 1;
             }
         }
         result
@@ -204,10 +279,25 @@ impl Generator {
         }
 
         let mut result = index;
+        #[cfg(feature = "verif-hooks")]
+        crate::verif::draw(crate::verif::ValueKind::Memo, false);
+        #[cfg(feature = "verif-hooks")]
+        let mut verif_idx = 0usize;
         for mutator in &self.mutators {
             if let Some(mutated) = mutator.mutate_memo_index(result, source, self.mutation_rate) {
+                #[cfg(feature = "verif-hooks")]
+                crate::verif::mutated(
+                    crate::verif::ValueKind::Memo,
+                    verif_idx,
+                    mutator.name(),
+                    mutated != result,
+                );
                 result = mutated;
                 break;
+            }
+            #[cfg(feature = "verif-hooks")]
+            {
+                verif_idx += 1;
             }
         }
         result
@@ -275,8 +365,31 @@ impl Generator {
         }
 
         // Let each mutator post-process
+        #[cfg(feature = "verif-hooks")]
+        let mut verif_idx = 0usize;
         for mutator in &self.mutators {
+            #[cfg(feature = "verif-hooks")]
+            let verif_before = if crate::verif::enabled() {
+                Some(self.output.clone())
+            } else {
+                None
+            };
             mutator.post_process(&snapshot, &mut self.output, source, self.mutation_rate);
+            #[cfg(feature = "verif-hooks")]
+            {
+                if let Some(before) = verif_before {
+                    if before != self.output {
+                        crate::verif::rewrite(
+                            verif_idx,
+                            mutator.name(),
+                            snapshot.output_len,
+                            before.len(),
+                            self.output.len(),
+                        );
+                    }
+                }
+                verif_idx += 1;
+            }
         }
     }
 }
